@@ -128,6 +128,12 @@ def histories(depth):
                 if depth >= 3:
                     for b in rest:
                         out.append([f, a, b])
+    # secrets at one position only (list items of the config type / the sub-configuration): every other key file of
+    # the tree, the root's and the default one included, is then designated by nothing
+    for first in ("only-ts", "only-sub"):
+        out.append([first])
+        for a in ("same", "fresh", "files", "append-ts"):
+            out.append([first, a])
     if depth < 3:
         # load-then-change-key histories are the shortest ones that involve a value that was *loaded* (not assigned)
         # before a key file changes; they are always included
@@ -140,7 +146,7 @@ def histories(depth):
 
 def bounds(tier):
     return {"placements": 16, "methods": ["aes", "xor", "best"],
-            "plaintexts": list(PLAINTEXTS) if tier == "thorough" else ["ascii7", "nonascii"],
+            "plaintexts": list(PLAINTEXTS) if tier == "thorough" else ["long40", "nonascii"],
             "formats": ["json", "yaml", "xml", "bson", "pickle"] if tier == "thorough" else ["json", "xml"],
             "history_depth": 3 if tier == "thorough" else 2, "histories": len(histories(3 if tier == "thorough" else 2))}
 
@@ -386,6 +392,20 @@ def run_history(ctx, job, pname, hist):
                 cfg.load_tree({"s": p, "sub": {"s": p, "deep": {"s": p2}}, "t": {"s": p}, "ls": [p], "items": [{"s": p2, "inner": {"s": p}}], "ts": [{"s": p2}]})
                 model.secrets.clear()
                 model.secrets.update({"s": p, "sub.s": p, "sub.deep.s": p2, "t.s": p, "ls[0]": p, "items[0].s": p2, "items[0].inner.s": p, "ts[0].s": p2})
+            elif op == "only-ts":
+                cfg.ts = [{"s": p}, {"s": p2}]
+                model.secrets.clear()
+                model.secrets.update({"ts[0].s": p, "ts[1].s": p2})
+            elif op == "only-sub":
+                cfg.sub.s = p
+                model.secrets.clear()
+                model.secrets.update({"sub.s": p})
+            elif op == "append-ts":
+                if cfg.ts is None:
+                    cfg.ts = []
+                j = len(cfg.ts)
+                cfg.ts.append({"s": p2})
+                model.secrets["ts[%d].s" % j] = p2
             elif op == "assign-subdict":
                 cfg.sub = {"s": p2, "deep": {"s": p}}
                 model.secrets.update({"sub.s": p2, "sub.deep.s": p})
